@@ -839,29 +839,34 @@ func (self *_Compiler) compilePtr(p *_Program, sp int, et reflect.Type) {
 	p.add(_OP_is_null)
 
 	/* dereference all the way down */
+	unmarshaler := false
 	for et.Kind() == reflect.Ptr {
 		if self.checkMarshaler(p, et, 0, true) {
-			return
+			/* still need to pin the `null` branch below */
+			unmarshaler = true
+			break
 		}
 		et = et.Elem()
 		p.rtt(_OP_deref, et)
 	}
 
-	/* check for recursive nesting */
-	ok := self.tab[et]
-	if ok {
-		p.rtt(_OP_recurse, et)
-	} else {
-		/* enter the recursion */
-		p.add(_OP_lspace)
-		self.tab[et] = true
+	if !unmarshaler {
+		/* check for recursive nesting */
+		ok := self.tab[et]
+		if ok {
+			p.rtt(_OP_recurse, et)
+		} else {
+			/* enter the recursion */
+			p.add(_OP_lspace)
+			self.tab[et] = true
 
-		/* not inline the pointer type
-		 * recursing the defined pointer type's elem will cause issue379.
-		 */
-		self.compileOps(p, sp, et)
+			/* not inline the pointer type
+			 * recursing the defined pointer type's elem will cause issue379.
+			 */
+			self.compileOps(p, sp, et)
+		}
+		delete(self.tab, et)
 	}
-	delete(self.tab, et)
 
 	j := p.pc()
 	p.add(_OP_goto)
